@@ -71,7 +71,7 @@ theorem create_revert_condition : createRevertCond = "maxCodeSizeExceeded || (er
 theorem read_only_guard_as_modelled : readOnlyGuard = "in.readOnly && (operation.writes || (op == CALL && stack.Back(2).Sign() != 0)) -> ErrWriteProtection" := by decide
 
 /-- `AccountDB.Prepare` assigns exactly these fields (transient storage is not among them) -/
-theorem prepare_assigns_as_modelled : prepareAssigns = ["thash", "bhash", "txIndex", "accessList"] := by decide
+theorem prepare_assigns_as_modelled : prepareAssigns = ["accessList", "bhash", "thash", "txIndex"] := by decide
 
 theorem block_loop_as_modelled : vmexecFacts = ["accountdb.Prepare(transaction.Hash,common.Hash{},i)[common.IsProposal013()]", "accountdb.Snapshot", "txExecutor.Execute", "accountdb.RevertToSnapshot[!success]", "receipt.Logs=this.accountdb.GetLogs(transaction.Hash)", "accountdb.GetLogs(transaction.Hash)[common.IsProposal013()]", "receipt.Logs=logs.([]*types.Log)", "exec:vmInstance.Create", "exec:accountdb.SetNonce[!(transaction.Target == \"\") && common.IsProposal007()]", "exec:vmInstance.Call", "exec:context[logs]=logs"] := by decide
 
